@@ -96,8 +96,13 @@ func runCheck(eng *Engine, o checkOpts, t0 time.Time) int {
 	os.RemoveAll(outDir)
 	os.MkdirAll(outDir, 0o755)
 	var cts []*Contract
+	var trusted []string
 	for _, c := range eng.contracts {
 		if !contains(c.Properties, o.prop) || c.Kind == "iface" {
+			continue
+		}
+		if c.Trusted {
+			trusted = append(trusted, c.Name)
 			continue
 		}
 		if o.only != "" && !strings.Contains(c.Name, o.only) {
@@ -129,6 +134,10 @@ func runCheck(eng *Engine, o checkOpts, t0 time.Time) int {
 	workers := runtime.NumCPU() / 2
 	if workers < 2 {
 		workers = 2
+	}
+	undec0 := loadUndecided(filepath.Join(verifDir, "undecided.json"))
+	if o.tier != "thorough" {
+		skipObligation = func(name string) bool { _, ok := matchUndecided(undec0, name); return ok }
 	}
 	tSolve := time.Now()
 	ds := dischargeAll(results, filepath.Join(outDir, "smt"), timeout, workers)
@@ -249,6 +258,9 @@ func runCheck(eng *Engine, o checkOpts, t0 time.Time) int {
 		"goroutines, channels, select and recover are not modelled; sync locks are no-ops (sequential semantics)",
 		"memory exhaustion and Go stack depth are not modelled",
 	}, assumptions...)
+	for _, t := range trusted {
+		assumptions = append(assumptions, "trusted (assumed, not verified) contract: "+t)
+	}
 	if len(samples) == 0 && len(rows) > 0 {
 		d := rows[0].d
 		samples = append(samples, map[string]any{"obligation": d.Obl.Name, "status": d.Res.Status, "solver": d.Res.Solver})
